@@ -1128,6 +1128,93 @@ func main() {
 		}
 	}
 
+	// 11. buffers owned by the caller.  A writer must copy what it is handed: the caller may reuse
+	// its scratch slice right after the call, and a slice with spare capacity (frame[:n]) must not be
+	// written into by later writes.  Every byte-slice writer, as the first write on an empty stream and
+	// later, with sizes around the internal thresholds (253/254, 1023/1024, 4096, 65535/65536).
+	{
+		type bw struct {
+			name  string
+			write func(o *gio.DataOutputX, b []byte)
+			enc   func(b []byte) []byte // expected bytes, from the model's format (independent of the slice identity)
+		}
+		be := func(n, w int) []byte {
+			out := make([]byte, w)
+			for i := w - 1; i >= 0; i-- {
+				out[i] = byte(n)
+				n >>= 8
+			}
+			return out
+		}
+		blobEnc := func(b []byte) []byte {
+			switch {
+			case len(b) == 0:
+				return []byte{0}
+			case len(b) <= 253:
+				return append([]byte{byte(len(b))}, b...)
+			case len(b) <= 65535:
+				return append(append([]byte{255}, be(len(b), 2)...), b...)
+			default:
+				return append(append([]byte{254}, be(len(b), 4)...), b...)
+			}
+		}
+		writers := []bw{
+			{"WriteBytes", func(o *gio.DataOutputX, b []byte) { o.WriteBytes(b) }, func(b []byte) []byte { return b }},
+			{"Write", func(o *gio.DataOutputX, b []byte) { o.Write(b, 0, len(b)) }, func(b []byte) []byte { return b }},
+			{"WriteBlob", func(o *gio.DataOutputX, b []byte) { o.WriteBlob(b) }, blobEnc},
+			{"WriteIntBytes", func(o *gio.DataOutputX, b []byte) { o.WriteIntBytes(b) }, func(b []byte) []byte { return append(be(len(b), 4), b...) }},
+			{"WriteShortBytes", func(o *gio.DataOutputX, b []byte) { o.WriteShortBytes(b) }, func(b []byte) []byte { return append(be(len(b), 2), b...) }},
+		}
+		sizes := []int{1, 8, 253, 254, 1023, 1024, 1025, 4096, 20000, 65535, 65536, 70000}
+		bad := map[string]bool{}
+		for _, w := range writers {
+			for _, n := range sizes {
+				if w.name == "WriteShortBytes" && n > 32767 {
+					continue
+				}
+				for _, first := range []bool{true, false} {
+					rep.Count("caller-buffer")
+					frame := rng.Bytes(n + 64) // n bytes handed over, 64 bytes of spare capacity behind them
+					orig := append([]byte{}, frame...)
+					var want, got []byte
+					var size int
+					oc := vh.Guard(func() {
+						o := gio.NewDataOutputX()
+						if !first {
+							o.WriteInt(0x01020304)
+							want = append(want, 1, 2, 3, 4)
+						}
+						w.write(o, frame[:n])
+						want = append(want, w.enc(orig[:n])...)
+						o.WriteLong(-2) // a later write must not land in the caller's spare capacity
+						want = append(want, 255, 255, 255, 255, 255, 255, 255, 254)
+						for i := 0; i < n; i++ { // the caller reuses its scratch slice before the stream is read
+							frame[i] ^= 0x5a
+						}
+						got = append([]byte{}, o.ToByteArray()...)
+						size = o.Size()
+					})
+					key := ""
+					switch {
+					case !oc.OK():
+						key = "panic"
+					case !bytes.Equal(got, want):
+						key = "stream-aliases-the-callers-slice"
+					case size != len(want):
+						key = "size"
+					case !bytes.Equal(frame[n:], orig[n:]):
+						key = "writes-into-the-callers-spare-capacity"
+					}
+					if key != "" && !bad[w.name+key] {
+						bad[w.name+key] = true
+						rep.Fail("property", "caller-buffer:"+w.name+":"+key, "the stream does not hold its own copy of the bytes it was handed",
+							map[string]interface{}{"writer": w.name, "bytes": n, "first_write_on_empty_stream": first, "got": vh.Clip(vh.Hex(got), 300), "want": vh.Clip(vh.Hex(want), 300), "size": size, "panic": oc.Panic})
+					}
+				}
+			}
+		}
+	}
+
 	// 9. independent encoders/decoders used at the same time.  The property is stated per encoder;
 	// it must therefore hold for each of several encoders whatever the others are doing (an encoder
 	// that stages bytes in package-level memory is correct alone and wrong in company).  A pool of
